@@ -4,6 +4,7 @@ import (
 	"context"
 	"errors"
 	"fmt"
+	"github.com/segmentio/kafka-go/zsimrt"
 	"strings"
 	"time"
 
@@ -106,6 +107,7 @@ func cgroupScenario(s *Sim, params map[string]string) {
 	watchIvl := Pick(t, "cfg", 500*time.Millisecond, 2*time.Second)
 
 	nmem := t.Range("cfg", 1, 3)
+	lateNext := t.Intn("latenext", 3) == 0
 	var members []*cgMember
 	slack := 2*n.MaxLatency + time.Millisecond
 
@@ -130,6 +132,14 @@ func cgroupScenario(s *Sim, params map[string]string) {
 			}
 			m.cg = cg
 			for !m.closed {
+				if lateNext && t.Intn("work", 3) == 0 {
+					// the application is busy with something else before it comes
+					// back for the next generation
+					s.Sleep(time.Duration(t.Range("work", 100, 4000)) * time.Millisecond)
+					if m.closed {
+						break
+					}
+				}
 				ctx, cancel := context.WithTimeout(context.Background(), time.Duration(t.Range("work", 1, 20))*time.Second)
 				gen, err := cg.Next(ctx)
 				cancel()
@@ -202,8 +212,10 @@ func cgroupScenario(s *Sim, params map[string]string) {
 				}
 				// always one watcher so that the end of the generation is observed
 				f0 := &cgFn{gen: gi}
+				f0Started := make(chan struct{})
 				gen.Start(func(ctx context.Context) {
 					cgn.ctx = ctx
+					close(f0Started)
 					s.WaitDone(ctx)
 					f0.doneStep, f0.doneAt = s.Step, s.Now()
 					if !cgn.ended {
@@ -213,9 +225,8 @@ func cgroupScenario(s *Sim, params map[string]string) {
 				})
 				f0.startStep, f0.startAt = s.Step, s.Now()
 				cgn.fns = append(cgn.fns, f0)
-				for cgn.ctx == nil && !s.Failed() {
-					s.Pause("f0") // until the watcher runs and publishes the generation's context
-				}
+				// until the watcher runs and publishes the generation's context
+				zsimrt.Recv("harness:f0", f0Started)
 				for i := 0; i < nf; i++ {
 					if t.Intn("work", 4) == 0 {
 						d := time.Duration(t.Range("work", 1, 5000)) * time.Millisecond
@@ -371,7 +382,7 @@ func cgroupScenario(s *Sim, params map[string]string) {
 					}
 				}
 				// R2b: the generation ended at the instant of its cause (fault-free timing only)
-				if !timing && gn.ended {
+				if !timing && gn.ended && !(lateNext && gn.endAt-gn.gotAt <= slack) {
 					cause := time.Duration(-1)
 					upd := func(x time.Duration) {
 						if x >= gn.gotAt && (cause < 0 || x < cause) {
@@ -444,9 +455,74 @@ func cgroupScenario(s *Sim, params map[string]string) {
 				}
 				last[key] = h
 			}
+			// ... from the moment the member has synced, whether or not the
+			// application has collected the generation from Next yet
+			firstHB := map[string]time.Duration{}
+			for _, h := range g.Heartbeats {
+				key := fmt.Sprintf("%s/%d", h.Member, h.Generation)
+				if _, ok := firstHB[key]; !ok {
+					firstHB[key] = h.At
+				}
+			}
+			// (with a partition watcher the generation can end on the client side
+			// without a word to the coordinator, and a late application then
+			// delays the rejoin: indistinguishable here from a silent member)
+			for _, m := range members {
+				if watch {
+					break
+				}
+				for i, r := range cl.Journal {
+					if r.API == nil || r.Hdr.APIKey != 14 || clientIDOf(r) != m.clientID || r.Resp == nil || !r.RespFull || r.Resp.I16("error_code") != 0 {
+						continue
+					}
+					key := fmt.Sprintf("%s/%d", r.Body.Str("member_id"), r.Body.I32("generation_id"))
+					due := r.RespFullAt + hb + 10*slack + 50*time.Millisecond
+					// the generation is over before a heartbeat is due if the member
+					// joins again, leaves, is closed, or the run ends
+					over := s.Now()
+					if m.closeInv != 0 && m.closeInvAt < over {
+						over = m.closeInvAt
+					}
+					started := false // the offsets were fetched: the generation exists on the client side
+					for _, r2 := range cl.Journal[i+1:] {
+						if r2.API == nil || clientIDOf(r2) != m.clientID {
+							continue
+						}
+						if (r2.Hdr.APIKey == 11 || r2.Hdr.APIKey == 13 || r2.Hdr.APIKey == 10) && r2.At < over {
+							over = r2.At
+						}
+						if r2.Hdr.APIKey == 9 && r2.At < over && r2.Resp != nil && r2.RespFull {
+							ok := r2.Hdr.APIVersion < 2 || r2.Resp.I16("error_code") == 0
+							for _, tt := range r2.Resp.Arr("topics") {
+								for _, pp := range tt.Arr("partitions") {
+									if pp.I16("error_code") != 0 {
+										ok = false
+									}
+								}
+							}
+							started = started || ok
+						}
+					}
+					if !started {
+						continue
+					}
+					if at, ok := firstHB[key]; over > due && (!ok || at > due) {
+						when := "never"
+						if ok {
+							when = at.String()
+						}
+						s.Fail("C15", "R3-heartbeat-late-start", "member %d: generation %s synced at %v; its first heartbeat was due by %v (interval %v) and arrived %s (the generation was not over before %v)", m.k, key, r.RespFullAt, due, hb, when, over)
+					}
+				}
+			}
 			for _, m := range members {
 				for _, gn := range m.gens {
 					if !gn.ended {
+						continue
+					}
+					if lateNext && gn.endAt-gn.gotAt <= slack {
+						// collected late and already over (a rebalance while the
+						// application was away): its life is not [gotAt, endAt]
 						continue
 					}
 					key := fmt.Sprintf("%s/%d", gn.memberID, gn.id)
